@@ -135,7 +135,11 @@ CHECKS = {
        "a byte-level semantics of the 21 instructions used: an accepted kernel, for every coefficient matrix, inputs, old "
        "outputs, start and n meeting the calling contract (C08_asm_contract_sat: satisfiable), terminates without any "
        "out-of-bounds access and leaves in each output on [start,start+count) exactly the GF(2^8) matrix product (xor-ed onto "
-       "the old bytes for the Xor variants), every other byte of every region unchanged. C08_nibble (PSHUFB recipe low[c][x&15]^high[c][x>>4] = c*x) and C08_affine (GF2P8AFFINEQB with the regenerated bit "
+       "the old bytes for the Xor variants), every other byte of every region unchanged. C08_asm_leo_sound / C08_asm_hand_sound / "
+       "C08_asm_spec_*: the same for the remaining 81 + 19 amd64 kernels - Leopard GF8/GF16 butterflies with their skip "
+       "masks, mulgf16, the xor slices and the six hand-written galMul* kernels (incl. the two-loop SSSE3 ones with their "
+       "alignment dispatch) - against butterfly / multiply specifications over the PASSED nibble tables (that the tables "
+       "tabulate the field product is C17). C08_nibble (PSHUFB recipe low[c][x&15]^high[c][x>>4] = c*x) and C08_affine (GF2P8AFFINEQB with the regenerated bit "
        "matrix = c*x) for all 65,536 pairs, C08_count, slot layout; C08_switch_table: the six switch functions regenerated from "
        "galois_gen_switch_amd64.go have exactly the 600 distinct cases, each calling the kernel named after its own shape and "
        "returning the granularity the model assumes. Execution tie (this is where the assembly enters): all 600 "
@@ -144,8 +148,8 @@ CHECKS = {
        "[start,start+n), unchanged inputs; hand-written multiply/xor kernels under every instruction-set switch for all 256 "
        "coefficients; Leopard GF8/GF16 butterfly/multiply kernels; the nopshufb kernel set. Expected bytes from a first-principles product.",
   note=TB + " Trusted for the kernel theorem: the instruction semantics RSV.Model.Asm.stepInstr and the text parser; both are "
-       "cross-checked by the lane-exhaustive execution on this CPU (SSE2..AVX512, GFNI). PARTIAL: the hand-written "
-       "multiply/xor kernels and the 48 Leopard butterfly/multiply kernels are tied by execution only.",
+       "cross-checked by the lane-exhaustive execution on this CPU (SSE2..AVX512, GFNI). The decoding of the `_N` skip masks "
+       "of the Leopard kernels is taken from the Go wrappers. arm64 / ppc64le kernels cannot be built or run here.",
   design="4/C08"),
  "C09": dict(
   technique="Lean 4 theorems on write-set classes and AllocAligned arithmetic + sentinel-arena diff against the model's write set",
